@@ -516,5 +516,249 @@ theorem visible_spec (t : Tree) (pens : Array (Option Pen)) (hok : TreeOk t) (ho
     simp only [Option.some.injEq] at hown
     exact (hv2 L C l c hown hmr).1
 
+/-! ### the step of `_scroll` on the state invariant -/
+
+/-- The invariant only reads the content of owned cells. -/
+theorem goodQ_content_congr (content content' : Id → Int → Int → Cell) (st : St) (hg : GoodQ content st)
+    (h : ∀ L C w l c, ownerAt st.tree L C = some (w, l, c) → content' w l c = content w l c) : GoodQ content' st :=
+  { tinv := ⟨hg.tinv.ok, hg.tinv.ord, hg.tinv.root, hg.tinv.pos, hg.tinv.nonempty, hg.tinv.dinv, fun L C w l c ho => by
+      rcases hg.tinv.inv L C w l c ho with hc | hc
+      · exact Or.inl hc
+      · exact Or.inr (by rw [h L C w l c ho]; exact hc)⟩
+    flags := hg.flags, queue := hg.queue, queueLater := hg.queueLater, term := hg.term, pc := hg.pc }
+
+/-- Raising `needs_restore` and `needs_later_processing` keeps the invariant. -/
+theorem goodQ_reroot (content : Id → Int → Int → Cell) (st : St) (t' : Tree) (hg : GoodQ content st)
+    (hw : t'.wins = st.tree.wins) (hd : t'.root.damage = st.tree.root.damage) (hc : t'.root.changes = st.tree.root.changes)
+    (he : t'.root.needsExpose = st.tree.root.needsExpose) (hl : t'.root.needsLater = true) :
+    GoodQ content { st with tree := t' } := by
+  have hcore : ∀ x : Id, (t'.wins[x]?).map core = (st.tree.wins[x]?).map core := by intro x; rw [hw]
+  exact
+  { tinv := ⟨treeOk_congr_core hcore hg.tinv.ok, ordered_congr hw hg.tinv.ord,
+             rootOk_congr_core (hcore 0) hg.tinv.root, rootsPositive_congr_core hcore hg.tinv.pos,
+             (by rw [hd]; exact hg.tinv.nonempty), (by rw [hd]; exact hg.tinv.dinv), fun L C w l c ho => by
+               rw [ownerAt_congr t' st.tree hw] at ho
+               rw [hd]
+               exact hg.tinv.inv L C w l c ho⟩
+    flags := fun hdd => ⟨by rw [he]; exact (hg.flags (by rw [← hd]; exact hdd)).1, hl⟩
+    queue := (by intro q hq; rw [hc] at hq; exact hg.queue q hq)
+    queueLater := fun _ => hl
+    term := (by
+      obtain ⟨w, a, b, c⟩ := hg.term
+      exact ⟨w, by show t'.wins[0]? = some w; rw [hw]; exact a, b, c⟩)
+    pc := parentListed_congr hw hg.pc }
+
+/-- When the walk to the root meets a hidden window, the scrolled window shows nowhere. -/
+theorem scrollWalk_none (t : Tree) (pens : Array (Option Pen)) (hok : TreeOk t) : ∀ (k : Nat) (a : Id) (vis : List Rect)
+    (aT aL : Int) (pen : Pen), scrollWalk t pens k a vis aT aL pen = .ok none →
+    ∀ (k' : Nat) (x y L C : Int), ¬ ExposedAt t k' a x y L C := by
+  intro k
+  induction k with
+  | zero => intro a vis aT aL pen h; simp [scrollWalk] at h
+  | succ n ih =>
+    intro a vis aT aL pen h k' x y L C hex
+    simp only [scrollWalk, bind, Bind.bind] at h
+    cases hg : WinTree.get t a with
+    | ub e => rw [hg] at h; cases h
+    | ok aw =>
+      rw [hg] at h
+      have haw := get_ok hg
+      simp only at h
+      cases k' with
+      | zero => simp [ExposedAt] at hex
+      | succ k2 =>
+        simp only [ExposedAt] at hex
+        obtain ⟨aw', haw', _, _, _, _, _, hv, hrest⟩ := hex
+        rw [haw.1] at haw'; cases haw'
+        simp only [hv, Bool.not_true, Bool.false_eq_true, if_false] at h
+        cases hp : aw.parent with
+        | none => simp only [hp, pure, Pure.pure] at h; cases h
+        | some p =>
+          simp only [hp] at h
+          cases hgp : WinTree.get t p with
+          | ub e => rw [hgp] at h; cases h
+          | ok pw =>
+            rw [hgp] at h
+            simp only at h
+            cases hss : subtractSiblings t a pw.children (RectSet.translate vis aw.rect.top aw.rect.left) with
+            | ub e => rw [hss] at h; cases h
+            | ok v2 =>
+              rw [hss] at h
+              simp only at h
+              rcases hrest with ⟨hr, _⟩ | ⟨_, p', hp', hexp⟩
+              · have hx := hok.onlyRoot a aw haw.1 hr
+                obtain ⟨rw0, hrw0, _, _, hrp, _⟩ := hok.rootWin.ex
+                rw [hx] at haw
+                rw [haw.1] at hrw0; cases hrw0
+                rw [hp] at hrp; cases hrp
+              · rw [hp] at hp'; cases hp'
+                exact ih p _ _ _ _ h _ _ _ _ _ hexp
+
+/-- **`scroll_step`**: `_scroll` with the children masked (`tickit_window_scroll`, `tickit_window_scrollrect`), under
+    every scroll oracle, keeps the state invariant when the content of the scrolled window moves with the scroll inside
+    the rectangle. -/
+theorem scroll_step (oracle : Oracle) (content content' : Id → Int → Int → Cell) (st st' : St) (win : Id) (rect : Rect)
+    (d r : Int) (pen : Option Pen) (ret : Bool) (hg : GoodQ content st)
+    (h : scroll oracle st win rect d r pen true = .ok (st', ret))
+    (hc : ∀ w l c, content' w l c =
+      if w = win ∧ rect.memb l c = true then content w (l + d) (c + r) else content w l c) :
+    GoodQ content' st' := by
+  have hI := hg.tinv
+  have hok := hI.ok
+  -- where nothing of the window inside the rectangle shows, the two contents agree on every owned cell
+  have trivial_case : (∀ L C l c, ownerAt st.tree L C = some (win, l, c) → ¬ rect.Mem l c) → GoodQ content' st := by
+    intro hno
+    apply goodQ_content_congr content content' st hg
+    intro L C w l c ho
+    rw [hc w l c]
+    split
+    · rename_i hx
+      obtain ⟨rfl, hm⟩ := hx
+      exact absurd ((memb_true_iff _ _ _).1 hm) (hno L C l c ho)
+    · rfl
+  unfold scroll at h
+  simp only [bind, Bind.bind, pure, Pure.pure, if_true] at h
+  cases hgw : WinTree.get st.tree win with
+  | ub e => rw [hgw] at h; cases h
+  | ok w =>
+    rw [hgw] at h
+    have hw := get_ok hgw
+    simp only at h
+    -- an owned cell of the window lies inside the window
+    have hself : ∀ L C l c, ownerAt st.tree L C = some (win, l, c) →
+        ExposedAt st.tree (st.tree.wins.size + 1) win l c L C ∧ (⟨0, 0, w.rect.lines, w.rect.cols⟩ : Rect).Mem l c := by
+      intro L C l c ho
+      have hex := owner_exposedAt st.tree hok L C win l c ho
+      refine ⟨hex, ?_⟩
+      simp only [ExposedAt] at hex
+      obtain ⟨w', hw', _, b1, b2, b3, b4, _⟩ := hex
+      rw [hw.1] at hw'; cases hw'
+      simp only [Rect.Mem, Rect.bottom, Rect.right]
+      omega
+    cases h0 : Rect.intersect ⟨0, 0, w.rect.lines, w.rect.cols⟩ rect with
+    | none =>
+      rw [h0] at h
+      simp only [Res.ok.injEq, Prod.mk.injEq] at h
+      obtain ⟨rfl, _⟩ := h
+      exact trivial_case (fun L C l c ho hm => Props.C06.intersect_none _ _ h0 l c ⟨(hself L C l c ho).2, hm⟩)
+    | some rect0 =>
+      rw [h0] at h
+      simp only at h
+      have hm0 := (Props.C06.intersect_some _ _ _ h0).2
+      cases h1 : clipToAncestors st.tree st.fuel win 0 0 rect0 with
+      | ub e => rw [h1] at h; cases h
+      | ok cr =>
+        rw [h1] at h
+        simp only at h
+        cases cr with
+        | none =>
+          simp only [Res.ok.injEq, Prod.mk.injEq] at h
+          obtain ⟨rfl, _⟩ := h
+          refine trivial_case (fun L C l c ho hm => ?_)
+          obtain ⟨hex, hs⟩ := hself L C l c ho
+          obtain ⟨r', hr', _⟩ := clip_keep st.tree hok _ win 0 0 rect0 none _ l c L C h1 ((hm0 l c).2 ⟨hs, hm⟩)
+            (by simpa using hex)
+          cases hr'
+        | some crect =>
+          simp only at h
+          cases h2 : rsAdd [] crect with
+          | ub e => rw [h2] at h; cases h
+          | ok vis0 =>
+            rw [h2] at h
+            simp only at h
+            cases h3 : subtractChildren st.tree w.children vis0 with
+            | ub e => rw [h3] at h; cases h
+            | ok vis1 =>
+              rw [h3] at h
+              simp only at h
+              unfold scrollRectSet at h
+              simp only [bind, Bind.bind, pure, Pure.pure] at h
+              cases h4 : scrollWalk st.tree st.pens st.fuel win vis1 0 0 (pen.getD {}) with
+              | ub e => rw [h4] at h; cases h
+              | ok res =>
+                rw [h4] at h
+                simp only at h
+                cases res with
+                | none =>
+                  simp only [Res.ok.injEq, Prod.mk.injEq] at h
+                  obtain ⟨rfl, _⟩ := h
+                  exact trivial_case (fun L C l c ho _ =>
+                    scrollWalk_none st.tree st.pens hok _ win _ _ _ _ h4 _ _ _ _ _ (hself L C l c ho).1)
+                | some quint =>
+                  obtain ⟨top, vis', T', L', pen'⟩ := quint
+                  simp only at h
+                  cases hgt : WinTree.get st.tree top with
+                  | ub e => rw [hgt] at h; cases h
+                  | ok tw =>
+                    rw [hgt] at h
+                    have htw := get_ok hgt
+                    simp only at h
+                    cases hir : tw.isRoot with
+                    | false => simp [hir] at h
+                    | true =>
+                      simp only [hir, Bool.not_true, Bool.false_eq_true, if_false] at h
+                      cases hlp : scrollLoop oracle win T' L' d r pen' vis' (st, true, false) with
+                      | ub e => rw [hlp] at h; cases h
+                      | ok acc' =>
+                        rw [hlp] at h
+                        simp only [Res.ok.injEq, Prod.mk.injEq] at h
+                        obtain ⟨hst', _⟩ := h
+                        -- the visible region
+                        obtain ⟨vinv, v1, v2⟩ := visible_spec st.tree st.pens hok hI.ord hg.pc win w hw.1 rect rect0 crect h0 h1
+                          vis0 vis1 h2 h3 _ top vis' T' L' pen' h4 tw htw.1 hir
+                        obtain ⟨rootw, hrootw, hrl, hrc⟩ := hg.term
+                        have hl0 : SLoopOk st.tree st (st, true, false).1 :=
+                          { wins := rfl, changes := rfl, tl := rfl, tc := rfl, pens := rfl, nonempty := hI.nonempty,
+                            dinv := hI.dinv, flags := hg.flags, later := fun hx => hx }
+                        have hM0 : Mixed content content' st.tree (fun _ _ => False) (st, true, false).1 := by
+                          intro L C w' l c ho
+                          rcases hI.inv L C w' l c ho with hcv | hr
+                          · exact Or.inl hcv
+                          · exact Or.inr (Or.inr ⟨fun hx => hx, hr⟩)
+                        obtain ⟨a1, a2⟩ := scrollLoop_step oracle content content' st.tree st win T' L' d r pen' hok hI.pos vis'
+                          (fun _ _ => False) (st, true, false) acc' hlp hl0 vinv.1 vinv.2.1
+                          (fun ρ hρ L C hm => by
+                            obtain ⟨o1, _⟩ := v1 L C ⟨ρ, hρ, hm⟩
+                            obtain ⟨wr, hwr, b1, b2, b3, b4⟩ := ownerAt_some_memb st.tree hI.root L C _ o1
+                            rw [hrootw] at hwr; cases hwr
+                            exact ⟨o1, fun hx => hx, b1, by omega, b3, by omega⟩)
+                          (fun ρ hρ L C hm => by
+                            obtain ⟨_, o2⟩ := v1 L C ⟨ρ, hρ, hm⟩
+                            rw [hc win _ _, if_pos ⟨rfl, (memb_true_iff _ _ _).2 o2⟩])
+                          hM0
+                        -- "damaged or already right" for the new content
+                        have hinv' : InvC content' acc'.1.tree acc'.1.screen := by
+                          intro L C w' l c ho
+                          rw [ownerAt_congr acc'.1.tree st.tree a1.wins] at ho
+                          rcases a2 L C w' l c ho with hcv | ⟨_, hr⟩ | ⟨hnd, hr⟩
+                          · exact Or.inl hcv
+                          · exact Or.inr hr
+                          · right
+                            rw [hr, hc w' l c]
+                            split
+                            · rename_i hx
+                              obtain ⟨rfl, hmm⟩ := hx
+                              exact absurd (Or.inl (v2 L C l c ho ((memb_true_iff _ _ _).1 hmm))) hnd
+                            · rfl
+                        have hcore : ∀ x : Id, (acc'.1.tree.wins[x]?).map core = (st.tree.wins[x]?).map core := by
+                          intro x; rw [a1.wins]
+                        have hgl : GoodQ content' acc'.1 :=
+                          { tinv := ⟨treeOk_congr_core hcore hok, ordered_congr a1.wins hI.ord,
+                                     rootOk_congr_core (hcore 0) hI.root, rootsPositive_congr_core hcore hI.pos,
+                                     a1.nonempty, a1.dinv, hinv'⟩
+                            flags := a1.flags
+                            queue := (by intro q hq; rw [a1.changes] at hq; exact hg.queue q hq)
+                            queueLater := (by
+                              intro hq
+                              rw [a1.changes] at hq
+                              exact a1.later (hg.queueLater hq))
+                            term := ⟨rootw, by rw [a1.wins]; exact hrootw, by rw [a1.tl]; exact hrl, by rw [a1.tc]; exact hrc⟩
+                            pc := parentListed_congr a1.wins hg.pc }
+                        rw [← hst']
+                        split
+                        · -- `needs_restore`, `needs_later_processing` raised
+                          exact goodQ_reroot content' acc'.1 _ hgl rfl rfl rfl rfl rfl
+                        · exact hgl
+
 end WinFlush
 end Tickit
